@@ -13,6 +13,7 @@ import (
 	"time"
 
 	"github.com/smarthome-go/homescript/v3/homescript/compiler"
+	"github.com/smarthome-go/homescript/v3/homescript/diagnostic"
 	herrors "github.com/smarthome-go/homescript/v3/homescript/errors"
 	"github.com/smarthome-go/homescript/v3/homescript/runtime"
 
@@ -253,6 +254,9 @@ func (c *countingCtx) Err() error {
 }
 func (c *countingCtx) Value(any) any { return nil }
 
+// count: polls seen so far
+func (c *countingCtx) count() int { c.mu.Lock(); defer c.mu.Unlock(); return c.polls }
+
 // caughtPositions extracts the positions a catch block printed.
 func caughtPositions(out string) (res [][3]string) {
 	for _, line := range strings.Split(out, "\n") {
@@ -341,6 +345,9 @@ func runRuntime(c fw.Case) fw.Result {
 				class = "terminate"
 			}
 			st := m.checkSpan(backend, class, oc.Span)
+			// the hosts show an interrupt as a diagnostic (cmd/testing_run.go): rendering has to succeed
+			d := diagnostic.Diagnostic{Level: diagnostic.DiagnosticLevelError, Message: oc.Message, Span: oc.Span}
+			m.render("diagnostic.Diagnostic.Display", backend, class, oc.Span, st, func(text string) string { return d.Display(text) })
 			m.obs[backend+"_fatal_spans"]++
 			observed++
 			m.cover[backend+":"+oc.Class+"/"+oc.Kind] = true
